@@ -212,6 +212,7 @@ pub struct AdmSwarm {
     pub w_account_admin: u32,
     pub w_emi: u32,
     pub w_reduce_only_drill: u32,
+    pub w_emode_drill: u32,
 }
 
 impl AdmSwarm {
@@ -242,6 +243,7 @@ impl AdmSwarm {
             w_account_admin: 0,
             w_emi: 0,
             w_reduce_only_drill: 0,
+            w_emode_drill: 0,
         }
     }
     pub fn adm(rng: &mut Rng) -> Self {
@@ -272,6 +274,7 @@ impl AdmSwarm {
             w_account_admin: r(1, 5),
             w_emi: r(0, 4),
             w_reduce_only_drill: r(0, 4),
+            w_emode_drill: r(0, 4),
         }
     }
     pub fn emi(rng: &mut Rng) -> Self {
@@ -324,6 +327,7 @@ impl AdmSwarm {
             self.w_account_admin,
             self.w_emi,
             self.w_reduce_only_drill,
+            self.w_emode_drill,
         ]
     }
     pub fn total(&self) -> u32 {
@@ -613,6 +617,69 @@ pub fn step_adm(sim: &mut Sim, ctx: &mut Ctx, adm: &AdmSwarm) -> Option<Tx> {
             }
         }
         23 => return step_emi(sim, ctx),
+        25 => {
+            // e-mode "downgrade" drill: the debt bank of some borrower gets an e-mode entry for the
+            // borrower's collateral tag whose weights lie BELOW the collateral bank's own, then the
+            // borrower goes to the edge of their borrowing power (init must imply maint)
+            let mut pairs: Vec<(usize, Pubkey, Pubkey, Pubkey)> = Vec::new();
+            for (ui, u) in ctx.world.users.iter().enumerate() {
+                for (g2, ma) in &u.maccounts {
+                    if *g2 != gi {
+                        continue;
+                    }
+                    if let Some(acc) = model::account_of(&sim.store, ma) {
+                        let bals = active_balances(&acc);
+                        for l in bals.iter().filter(|b| i80(b.liability_shares) >= I80F48::ONE) {
+                            for c in bals.iter().filter(|b| i80(b.asset_shares) >= I80F48::ONE) {
+                                pairs.push((ui, *ma, c.bank_pk, l.bank_pk));
+                            }
+                        }
+                    }
+                }
+            }
+            if pairs.is_empty() {
+                return None;
+            }
+            let (ui, ma, cb, lb) = *ctx.rng.pick(&pairs);
+            let cbank = model::bank_of(&sim.store, &cb)?;
+            let ai: f64 = I80F48::from_le_bytes(cbank.config.asset_weight_init.value).to_num();
+            if ai <= 0.05 {
+                return None;
+            }
+            sim.stats.fault("drill_emode_entry_below_bank_weight");
+            let tag = if cbank.emode.emode_tag != 0 { cbank.emode.emode_tag } else { ctx.rng.range(1, 5) as u16 };
+            if cbank.emode.emode_tag == 0 {
+                sim.apply(Event::Tx(Tx::one(
+                    "emode_admin",
+                    ix::configure_bank_emode(g.key, g.admins.emode, cb, tag, cbank.emode.emode_config.entries),
+                )));
+            }
+            let lbank = model::bank_of(&sim.store, &lb)?;
+            let mut entries = lbank.emode.emode_config.entries;
+            let wi = ai * *ctx.rng.pick(&[0.2f64, 0.5, 0.8]);
+            let wm = wi + *ctx.rng.pick(&[0.0f64, 0.01, 0.03]);
+            let slot = entries
+                .iter()
+                .position(|e| e.collateral_bank_emode_tag == tag)
+                .or_else(|| entries.iter().position(|e| e.collateral_bank_emode_tag == 0))
+                .unwrap_or(0);
+            entries[slot] = EmodeEntry {
+                collateral_bank_emode_tag: tag,
+                flags: 0,
+                pad0: [0; 5],
+                asset_weight_init: w(wi),
+                asset_weight_maint: w(wm),
+            };
+            entries.sort_by_key(|e| e.collateral_bank_emode_tag);
+            sim.apply(Event::Tx(Tx::one(
+                "emode_admin",
+                ix::configure_bank_emode(g.key, g.admins.emode, lb, lbank.emode.emode_tag, entries),
+            )));
+            if sim.violated() && sim.stop_on_violation {
+                return None;
+            }
+            return borrow_boundary_in(sim, ctx, ui, gi, ma, Some(lb));
+        }
         24 => {
             // reduce-only drill: a bank somebody holds as collateral goes reduce-only, then that
             // holder looks for the edge of their borrowing power
